@@ -56,17 +56,20 @@ Definition args_family (v : var) : bool :=
 (* external semantics (oracles): regex keys, operators                                   *)
 (* ------------------------------------------------------------------------------------ *)
 (* key-pattern family:  RxAny = "."   RxLit al ar lit = [^]lit[$]  (lit has no metacharacter);
-   the two escape-class patterns exist to exhibit what lower-casing a pattern's source does *)
+   the two escape-class patterns check that folding a pattern's source keeps escape classes
+   (before commit 45c27b9 the whole source was lower-cased: \D became \d) *)
 Inductive rxpat := RxAny | RxLit (al ar : bool) (lit : bytes)
   | RxNonDigits      (* ^\D+$ *)
-  | RxDigits.        (* ^\d+$ *)
+  | RxDigits         (* ^\d+$ *)
+  | RxNonSpace.      (* ^\S+$ *)
 
 Inductive opk := OpStreq | OpContains | OpBeginsWith | OpEndsWith | OpEq | OpGt | OpUncond | OpNoMatch.
 Record op := mk_op { op_kind : opk; op_arg : bytes }.
 
 Record sem := mk_sem {
   rxm   : rxpat -> bytes -> bool;   (* regexp.MatchString of the compiled pattern *)
-  rxlow : rxpat -> rxpat;           (* the pattern whose source is strings.ToLower(source) *)
+  rxlow : rxpat -> rxpat;           (* the pattern whose source is lowerRegexSource(source): literal
+                                       text lower-cased, escape sequences kept (commit 45c27b9) *)
   rxsrc : rxpat -> bytes;           (* source text between the slashes *)
   opev  : op -> bytes -> bool       (* Operator.Evaluate(tx, value) *)
 }.
@@ -240,7 +243,7 @@ Record cparams := mk_cparams {
 (* the key text rule_parser hands to AddVariable / AddVariableNegation *)
 Definition sel_text (X : sem) (s : sel) : bytes :=
   match s with SelAll => [] | SelStr k => k | SelRx p => 47 :: rxsrc X p ++ [47] end.
-(* hasRegex + (unless ARGS family) strings.ToLower(rx) + regexp.Compile *)
+(* hasRegex + (unless ARGS family) lowerRegexSource(rx) + regexp.Compile *)
 Definition sel_rx (X : sem) (v : var) (s : sel) : option rxpat :=
   match s with SelRx p => Some (if args_family v then p else rxlow X p) | _ => None end.
 
@@ -405,6 +408,7 @@ Definition run_tx (X : sem) (ord : oracle) (q : request) (rules : list rule) : l
 (* ------------------------------------------------------------------------------------ *)
 (* the concrete semantics used by the correspondence                                     *)
 (* ------------------------------------------------------------------------------------ *)
+Definition rx_space (c : N) : bool := (c =? 9) || (c =? 10) || (c =? 12) || (c =? 13) || (c =? 32).   (* \s *)
 Definition rx_small (p : rxpat) (k : bytes) : bool :=
   match p with
   | RxAny => existsb (fun c => negb (c =? 10)) k
@@ -413,13 +417,15 @@ Definition rx_small (p : rxpat) (k : bytes) : bool :=
     else (if ar then is_suffix lit k else is_substring lit k)
   | RxNonDigits => negb (is_empty k) && forallb (fun c => negb (in_rng 48 57 c)) k
   | RxDigits => negb (is_empty k) && forallb (fun c => in_rng 48 57 c) k
+  | RxNonSpace => negb (is_empty k) && forallb (fun c => negb (rx_space c)) k
   end.
 Definition rx_small_low (p : rxpat) : rxpat :=
   match p with
   | RxAny => RxAny
   | RxLit al ar lit => RxLit al ar (lower_ascii lit)
-  | RxNonDigits => RxDigits      (* strings.ToLower("^\D+$") = "^\d+$" *)
+  | RxNonDigits => RxNonDigits   (* lowerRegexSource copies escape sequences as written (45c27b9) *)
   | RxDigits => RxDigits
+  | RxNonSpace => RxNonSpace
   end.
 Definition rx_small_src (p : rxpat) : bytes :=
   match p with
@@ -427,6 +433,7 @@ Definition rx_small_src (p : rxpat) : bytes :=
   | RxLit al ar lit => (if al then [94] else []) ++ lit ++ (if ar then [36] else [])
   | RxNonDigits => [94; 92; 68; 43; 36]
   | RxDigits => [94; 92; 100; 43; 36]
+  | RxNonSpace => [94; 92; 83; 43; 36]
   end.
 
 (* strconv.Atoi with the error dropped.  ParseUint scans left to right and stops at the FIRST of:
